@@ -216,7 +216,12 @@ namespace Pistache::Tcp
         {
             // Clean up buffers
             Guard guard(toWriteLock);
-            toWrite.erase(fd);
+            auto wit = toWrite.find(fd);
+            if (wit != std::end(toWrite))
+            {
+                releaseWrites(wit->second);
+                toWrite.erase(wit);
+            }
         }
 
         // Don't rely on close deleting this FD from the epoll "interest" list.
@@ -228,6 +233,15 @@ namespace Pistache::Tcp
         reactor()->removeFd(key(), fd);
 
         close(fd);
+    }
+
+    void Transport::releaseWrites(std::deque<WriteEntry>& wq)
+    {
+        for (auto& entry : wq)
+        {
+            if (entry.buffer.isFile())
+                ::close(entry.buffer.fd());
+        }
     }
 
     void Transport::asyncWriteImpl(Fd fd)
@@ -305,12 +319,14 @@ namespace Pistache::Tcp
                     // https://github.com/pistacheio/pistache/issues/501
                     else if (errno == EBADF || errno == EPIPE || errno == ECONNRESET)
                     {
-                        wq.pop_front();
+                        releaseWrites(wq);
                         toWrite.erase(fd);
                         stop = true;
                     }
                     else
                     {
+                        if (buffer.isFile())
+                            ::close(buffer.fd());
                         cleanUp();
                         deferred.reject(Pistache::Error::system("Could not write data"));
                     }
@@ -459,7 +475,11 @@ namespace Pistache::Tcp
 
             auto fd = write->peerFd;
             if (!isPeerFd(fd))
+            {
+                if (write->buffer.isFile())
+                    ::close(write->buffer.fd());
                 continue;
+            }
 
             {
                 Guard guard(toWriteLock);
